@@ -40,6 +40,7 @@ from ..lib import lean, repo
 from ..lib.lean import TieBroken
 
 OUT = os.path.join(lean.LEAN_DIR, 'PyIpmi', 'Gen', 'Loops04.lean')
+OUT_STATE = os.path.join(lean.LEAN_DIR, 'PyIpmi', 'Gen', 'IfaceState04.lean')
 TICKS = 64
 
 
@@ -486,7 +487,130 @@ ORDER = ['cmdSendMessage', 'netfnApp', 'rmcpSeqInc', 'rmcpSeqMod', 'rmcpSeqInit'
          'aardvarkAttemptsExtra']
 
 
+# ======================================================================== who touches the state the requests share
+# 3. STATE.  `next_sequence_number` (and, RMCP, `_q`) is what one request hands to the next.  For each of the three
+#    modules: every function (Class.method, or <module>) that STORES an attribute of that name on any object (assignment,
+#    augmented / annotated assignment, tuple target, del, setattr / delattr with the literal name), every function that
+#    calls `_inc_sequence_number`, every function that mentions `_q` at all, every function that calls
+#    `_send_and_receive`, and every use of the attribute dictionary (`__dict__`, vars(), setattr / getattr / delattr with a
+#    name that is not a literal) - written to Gen/IfaceState04.lean, where Props.C04.source_state_writers compares the lists
+#    with what the operation alphabet of Model/RmcpOps.lean assumes: the counter is written by __init__ and
+#    _inc_sequence_number only, _inc_sequence_number is called by the request functions only - establish_session,
+#    close_session, ping, open ... reach both through the requests they make and in no other way.
+STATE_MODULES = [('rmcp', 'pyipmi/interfaces/rmcp.py'), ('ipmbdev', 'pyipmi/interfaces/ipmbdev.py'),
+                 ('aardvark', 'pyipmi/interfaces/aardvark.py')]
+
+
+def _scopes(tree):
+    """-> [(qualified name, node)] for the module body and every function, nested ones under their own name"""
+    out = [('<module>', tree)]
+
+    def walk(node, prefix):
+        for c in ast.iter_child_nodes(node):
+            if isinstance(c, ast.ClassDef):
+                walk(c, prefix + c.name + '.')
+            elif isinstance(c, (ast.FunctionDef, ast.AsyncFunctionDef, ast.Lambda)):
+                name = prefix + (c.name if not isinstance(c, ast.Lambda) else '<lambda>')
+                out.append((name, c))
+                walk(c, name + '.')
+            else:
+                walk(c, prefix)
+    walk(tree, '')
+    return out
+
+
+def _own_nodes(node):
+    """nodes that belong to this scope (not to a function / class nested in it)"""
+    for c in ast.iter_child_nodes(node):
+        if isinstance(c, (ast.FunctionDef, ast.AsyncFunctionDef, ast.Lambda)):
+            continue
+        if isinstance(c, ast.ClassDef):
+            # the class body itself runs at import time in the enclosing scope; its methods are scopes of their own
+            for x in _own_nodes(c):
+                yield x
+            continue
+        yield c
+        for x in _own_nodes(c):
+            yield x
+
+
+def _lit_name(call, pos=1):
+    if len(call.args) > pos and isinstance(call.args[pos], ast.Constant) and isinstance(call.args[pos].value, str):
+        return call.args[pos].value
+    return None
+
+
+def state_facts(rel):
+    tree = ast.parse(repo.read(rel))
+    f = {'seqWriters': [], 'queueWriters': [], 'queueUsers': [], 'incCallers': [], 'requestCallers': [], 'dynamic': []}
+
+    def add(key, name):
+        if name not in f[key]:
+            f[key].append(name)
+    for name, node in _scopes(tree):
+        for n in _own_nodes(node):
+            if isinstance(n, ast.Attribute):
+                if isinstance(n.ctx, (ast.Store, ast.Del)):
+                    if n.attr == 'next_sequence_number':
+                        add('seqWriters', name)
+                    if n.attr == '_q':
+                        add('queueWriters', name)
+                if n.attr == '_q':
+                    add('queueUsers', name)
+                if n.attr == '__dict__':
+                    add('dynamic', name)
+            if isinstance(n, ast.Call):
+                fn = n.func
+                if isinstance(fn, ast.Attribute) and fn.attr == '_inc_sequence_number':
+                    add('incCallers', name)
+                if isinstance(fn, ast.Attribute) and fn.attr == '_send_and_receive':
+                    add('requestCallers', name)
+                if isinstance(fn, ast.Name) and fn.id in ('setattr', 'delattr', 'getattr', 'vars', 'globals', 'locals',
+                                                          'exec', 'eval'):
+                    lit = _lit_name(n) if fn.id in ('setattr', 'delattr', 'getattr') else None
+                    if lit is None:
+                        add('dynamic', name)
+                    elif fn.id != 'getattr':
+                        if lit == 'next_sequence_number':
+                            add('seqWriters', name)
+                        if lit == '_q':
+                            add('queueWriters', name)
+                            add('queueUsers', name)
+            if isinstance(n, ast.Attribute) and n.attr in ('_inc_sequence_number', '_send_and_receive') \
+                    and isinstance(n.ctx, (ast.Store, ast.Del)):
+                add('dynamic', name)          # the method itself is replaced
+    return f
+
+
+def generate_state():
+    """-> {module: facts}; never raises on a changed source (a module that does not parse yields ['<unreadable>'])"""
+    res = {}
+    out = ['/- GENERATED by harness/translate/loops04.py (part 3, STATE) from pyipmi/interfaces/{rmcp,ipmbdev,aardvark}.py',
+           '   of the working tree.  Do not edit: rewritten on every check run.',
+           '   For each module, in source order, the functions (Class.method) that', 
+           '     …SeqWriters      store an attribute named next_sequence_number (=, +=, del, setattr)',
+           '     …QueueWriters    store an attribute named _q;   …QueueUsers  mention _q at all',
+           '     …IncCallers      call _inc_sequence_number;     …RequestCallers  call _send_and_receive',
+           '     …Dynamic         reach attributes by computed name (__dict__, vars, setattr / getattr with a non-literal) -/',
+           'namespace PyIpmi.Gen.IfaceState04', '']
+    for key, rel in STATE_MODULES:
+        try:
+            f = state_facts(rel)
+        except (SyntaxError, IOError, OSError) as e:  # noqa
+            f = dict((k, ['<unreadable>']) for k in ('seqWriters', 'queueWriters', 'queueUsers', 'incCallers',
+                                                     'requestCallers', 'dynamic'))
+        res[key] = f
+        for k in ('seqWriters', 'queueWriters', 'queueUsers', 'incCallers', 'requestCallers', 'dynamic'):
+            out.append('def %s%s : List String := [%s]' % (key, k[0].upper() + k[1:],
+                                                          ', '.join('"%s"' % x.replace('"', '') for x in f[k])))
+        out.append('')
+    out.append('end PyIpmi.Gen.IfaceState04')
+    lean.write_if_changed(OUT_STATE, '\n'.join(out) + '\n')
+    return res
+
+
 def generate():
+    generate_state()
     vals, problems, missing = extract()
     out = ['/- GENERATED by harness/translate/loops04.py from pyipmi/interfaces/{rmcp,ipmbdev,aardvark}.py',
            '   of the working tree.  Do not edit: rewritten on every check run. -/',
